@@ -72,6 +72,12 @@ func vh_C18_walk() {
 	} else {
 		path = []string{"." + name}
 	}
+	// a member that is a hash: the path may go on into the hash (its field K
+	// is capitalised, so access is decided by the member's own name)
+	intoHash := kind == 2 && vChoice("intohash", 2) == 1
+	if intoHash {
+		path = append(path, ".K")
+	}
 	route := vChoice("route", 2)
 	want := vC18Expect(r)
 	if kind == 3 && route == 0 {
@@ -105,7 +111,7 @@ func vh_C18_walk() {
 	}
 	if want == 1 {
 		vAssert(err == nil, "public-member-is-accessible")
-		if err == nil && route == 0 && kind == 0 {
+		if err == nil && route == 0 && (kind == 0 || intoHash) {
 			i, isI := got.(*SexpInt)
 			vAssert(isI && i.Val == val.(*SexpInt).Val, "public-member-value")
 		}
